@@ -9,7 +9,12 @@ mkdir -p "$out"
 base=/tmp/mutsweep.$$; wt=$base/repo; vf=$base/verif
 git -C /repo worktree remove --force $wt >/dev/null 2>&1; rm -rf $base; mkdir -p $base
 git -C /repo worktree add --detach $wt HEAD >/dev/null 2>&1 || { echo "worktree failed"; exit 2; }
-rsync -a --exclude build --exclude replays --exclude .git /verif/ $vf/
+if [ -n "${MUT_FROM_HEAD:-}" ]; then
+  # the committed tree only (other people's uncommitted edits in /verif do not interfere)
+  mkdir -p $vf; git -C /verif archive HEAD | tar -x -C $vf
+else
+  rsync -a --exclude build --exclude replays --exclude .git /verif/ $vf/
+fi
 sed -i "s#=> /repo#=> $wt#" $vf/harness/go.mod
 ids="$@"; [ -z "$ids" ] && ids=$(ls $sd)
 for id in $ids; do
